@@ -97,31 +97,7 @@ def check(run: Run) -> None:
 
     fe, fs = flat_info(model, F_EXPAND, exclude=(F_SAVED, F_NAMES)), flat_info(model, F_SAVED, exclude=(F_NAMES,))
 
-    # ---- R1: substitution sites
-    hyg = hygienic_returns(run, model, fs)
-    sites = 0
-    for fi in (fe, fs):
-        se = ShapeEval(model, fi)
-        for c in find_calls(fi.node, "replace"):
-            if len(c.args) < 2:
-                continue
-            key_sh = se.eval(c.args[0])
-            is_ref = any(len(s) == 3 and isinstance(s[0], Const) and s[0].text == "{" and isinstance(s[2], Const) and s[2].text == "}" for s in key_sh)
-            if not is_ref:
-                continue
-            sites += 1
-            rep = c.args[1]
-            from_saved = isinstance(rep, ast.Name) and rep.id in _flows_from(model, fi, F_SAVED)
-            wrapped_here = any(len(s) >= 3 and isinstance(s[0], Const) and s[0].text.startswith("(") and isinstance(s[-1], Const) and s[-1].text.endswith(")") for s in se.eval(rep))
-            if wrapped_here or (from_saved and hyg):
-                run.proved("C15.R1", f"{fi.name}: {{name}} is replaced by a hygienic clause")
-            elif from_saved:
-                pass  # already reported at the returns of _get_saved_where_filter
-            else:
-                run.refuted("C15.R1", fi.name, c, "a {name} reference is replaced by text that is neither parenthesised nor produced by _get_saved_where_filter",
-                            file=FILE, node=c)
-    run.floor("{name} substitution sites", sites, 2)
-
+    # ---- R1 / R3: decided by expansion_scenarios (what text comes out for plain / alternative / grouped / nested / diamond / repeated references), not by the shape of the substitution code
     # ---- R2
     expansion_scenarios(run, model)
     for target, label in ((F_EXPAND, "expand_saved_queries"),):
@@ -132,6 +108,8 @@ def check(run: Run) -> None:
             for n in walk_no_nested(caller.node):
                 if isinstance(n, ast.Assign) and n.value is call and isinstance(n.targets[0], ast.Name):
                     var = n.targets[0].id
+                if isinstance(n, ast.AnnAssign) and n.value is call and isinstance(n.target, ast.Name):
+                    var = n.target.id
                 if isinstance(n, ast.NamedExpr) and n.value is call:
                     var = n.target.id
             if var is None:
@@ -186,17 +164,6 @@ def check(run: Run) -> None:
             run.check("C15.R2", f"{caller.name}: a missing saved query becomes an error", err_ok, caller.name, f"None branch for {var}",
                       f"{caller.name} does not turn a failed expansion into an error (raise / return None)", file=caller.file, node=call)
 
-    # ---- R3
-    rec = [c for c in ast.walk(fs.node) if isinstance(c, ast.Call) and model.callee(fs, c) == F_SAVED]
-    in_loop = False
-    for n in walk_no_nested(fs.node):
-        if isinstance(n, ast.For) and _iterates_names(model, fs, n) and any(r in list(ast.walk(n)) for r in rec):
-            in_loop = True
-    run.check("C15.R3", "nested references are expanded recursively", bool(rec) and in_loop, "_get_saved_where_filter", "recursion over names in the clause",
-              "_get_saved_where_filter does not expand the {names} found in the clause it returns", file=FILE, node=fs.node)
-    loops = [n for n in walk_no_nested(fe.node) if isinstance(n, ast.For) and _iterates_names(model, fe, n) and any(isinstance(c, ast.Call) and model.callee(fe, c) == F_SAVED for c in ast.walk(n))]
-    run.check("C15.R3", "every reference of the query is expanded", len(loops) == 1, "expand_saved_queries", "loop over names", "expand_saved_queries does not visit every {name}", file=FILE, node=fe.node)
-
     # ---- R4
     mi = model.module_of(MOD)
     glob = {k for k, v in mi.assigns.items() if isinstance(v, (ast.Dict, ast.List, ast.Set)) or (isinstance(v, ast.Call) and ast.unparse(v.func).split(".")[-1] in ("dict", "set", "list", "defaultdict", "OrderedDict", "lru_cache"))}
@@ -206,15 +173,6 @@ def check(run: Run) -> None:
               file=FILE)
     cached = [d for f in (fe, fs) for d in f.decorators() if "cache" in d]
     run.check("C15.R4", "expansion functions are not memoised", not cached, "_saved_queries", cached[0] if cached else "-", "expansion is memoised by a cache decorator", file=FILE)
-    for p in enum_paths(fs.node):
-        if p.outcome != "return":
-            continue
-        ret = p.events[-1][1]
-        if ret.value is None or (isinstance(ret.value, ast.Constant) and ret.value.value is None):
-            continue
-        r = first_index(p, lambda n: isinstance(n, ast.Call) and isinstance(n.func, ast.Attribute) and n.func.attr in ("read_text", "open", "read_bytes"))
-        run.check("C15.R4", "a returned clause was read from the file on this call", r >= 0, "_get_saved_where_filter", "return without reading the .zoq file",
-                  "a path returns a clause without reading the saved query's file on this call", file=FILE, node=ret, detail=dict(path=p.describe()))
     run.units = dict(functions=[F_EXPAND, F_SAVED, F_NAMES])
     run.assumptions += ["cyclic saved-query sets are excluded by the statement", "the query grammar parses '(' or_filter ')' as a grouped sub-filter"]
 
@@ -254,52 +212,39 @@ def _regex_class(item) -> "set[str] | None":
 
 
 def reference_pattern(run: Run, model: PyModel) -> None:
-    import re._constants as sc
-    import re._parser as sp
+    """Every brace pair is a reference, whatever characters the name is made of: for each printable ASCII character c (braces excepted) the query
+    `W x {a<c>b}` -- no such saved query exists -- must make the expansion FAIL.  If the code that finds references does not recognise the name, the
+    text comes back with the braces still in it and nothing is reported.  Decided through expand_saved_queries itself (pattern constant, compiled
+    pattern object, hand-written scanner: all the same to this rule)."""
+    from ..absint import Interp, Raised, State
+    from ..virtual import World, vpath
 
-    from ..shapes import Const, ShapeEval
-
-    fi = model.func(F_NAMES)
-    se = ShapeEval(model, fi)
-    calls = [c for c in ast.walk(fi.node) if isinstance(c, ast.Call) and ast.unparse(c.func) in ("re.findall", "re.finditer", "re.compile")]
-    run.floor("regex uses in _get_saved_query_names", len(calls), 1)
-    for c in calls:
-        pats = []
-        for sh in se.eval(c.args[0]):
-            if len(sh) == 1 and isinstance(sh[0], Const):
-                pats.append(sh[0].text)
-            else:
-                pats = None
-                break
-        if not pats:
-            run.undecided("C15.R5", "_get_saved_query_names", f"pattern `{ast.unparse(c.args[0])}` is not a constant")
+    W = World(model, files={}, old_map=None, indexed=set(), errors=set(), whitelist=[""], contents={"/Z/zoq/real.zoq": "# W +t"}, missing="all-but-contents")
+    I = Interp(model, probes=W.probes(), max_states=4000)
+    n = 0
+    slipped: list[str] = []
+    for code in range(32, 127):
+        ch = chr(code)
+        if ch in "{}":
             continue
-        for pat in pats:
-            try:
-                items = list(sp.parse(pat))
-            except Exception as e:
-                run.undecided("C15.R5", "_get_saved_query_names", f"cannot parse {pat!r}: {e}")
-                continue
-            ok = len(items) == 3 and items[0] == (sc.LITERAL, ord("{")) and items[2] == (sc.LITERAL, ord("}")) and items[1][0] is sc.SUBPATTERN
-            missing = None
-            if ok:
-                body = list(items[1][1][3])
-                ok = len(body) == 1 and body[0][0] in (sc.MAX_REPEAT, sc.MIN_REPEAT) and len(body[0][1][2]) == 1
-                if ok:
-                    lo, hi, inner = body[0][1]
-                    cls = _regex_class(inner[0])
-                    U = {chr(x) for x in range(32, 127)} - {"{", "}"}
-                    if cls is None or hi is not sc.MAXREPEAT or lo > 1:
-                        ok = False
-                    else:
-                        missing = sorted(U - cls)
-                        ok = not missing and "}" not in (cls if body[0][0] is sc.MAX_REPEAT else set())
-            if missing:
-                msg = (f"the reference pattern {pat!r} only recognises names made of a restricted alphabet (not {''.join(missing)[:24]!r}...): `{{weekly-review}}` or `{{work/inbox}}` is not seen as a reference, "
-                       "stays in the query text unexpanded and no 'does not exist' error is raised for it")
-            else:
-                msg = f"the reference pattern {pat!r} is not of the form '{{' (any non-brace)* '}}'"
-            run.check("C15.R5", f"reference pattern {pat!r} recognises every brace pair", ok, "_get_saved_query_names", pat, msg, file=FILE, node=c)
+        q = "W x {a" + ch + "b} {real}"
+        try:
+            res = I.run_function(F_EXPAND, [vpath("/Z"), q], st=State())
+        except Exception as e:  # noqa: BLE001
+            run.undecided("C15.R5", "expand_saved_queries", f"{q!r}: cannot interpret: {type(e).__name__}: {str(e)[:100]}")
+            return
+        for v, s in res:
+            n += 1
+            if s.imprecise or (isinstance(v, Raised) and v.exc not in ("RuntimeError",)):
+                run.undecided("C15.R5", "expand_saved_queries", f"{q!r}: " + (f"raises {v.exc}" if isinstance(v, Raised) else "; ".join(s.imprecise[:2])))
+                return
+            if isinstance(v, str):
+                slipped.append(ch)
+    run.floor("reference-name characters tried", n, 90)
+    run.check("C15.R5", "a reference whose name contains any printable character is recognised (a missing one fails the expansion)", not slipped, "expand_saved_queries",
+              f"names containing {''.join(slipped)[:30]!r} are not seen as references",
+              f"`W x {{a<c>b}} {{real}}` for c in {''.join(slipped)[:40]!r} comes back as a query text although no such saved query exists: names containing these characters (e.g. "
+              "{weekly-review}, {work/inbox}) are not recognised as references, stay in the query unexpanded and no error is raised", file=FILE)
 
 
 def _iterates_names(model: PyModel, fi, loop: ast.For) -> bool:
@@ -364,6 +309,21 @@ def _top_level_pipe(clause: str) -> bool:
     return False
 
 
+def _refs_closure(pages: dict, names: list) -> set:
+    """The scenario's saved queries reachable from `names` through {references} in their first lines."""
+    import re
+
+    seen: set = set()
+    todo = list(names)
+    while todo:
+        nm = todo.pop()
+        if nm in seen or nm not in pages:
+            continue
+        seen.add(nm)
+        todo.extend(re.findall(r"\{([^{}]*)\}", pages[nm].split("\n")[0]))
+    return seen
+
+
 def expansion_scenarios(run: Run, model: PyModel) -> None:
     """Abstract evaluation of expand_saved_queries over a small virtual zoq/ directory (the interpreter reads the pages from the
     scenario, nothing touches a disk): a reference is replaced by the saved WHERE clause (its O / G clauses cut off), nested
@@ -415,6 +375,11 @@ def expansion_scenarios(run: Run, model: PyModel) -> None:
             # nested clause may itself carry optional parentheses around the inner group
             if any(nm == "outer" for nm, _ in refs):
                 accept |= {t.replace("(x (a | b))", "x (a | b)") for t in accept} | {t.replace("x (a | b)", "(x (a | b))") for t in accept if "(x (a | b))" not in t}
+            reads = {t[1] for t in s.trace if t[0] == "read"}
+            unread = sorted(nm for nm in _refs_closure(pages, [nm for nm, _ in refs]) if f"/Z/zoq/{nm}.zoq" not in reads)
+            run.check("C15.R4", f"{q!r}: every saved query the expansion depends on is read from its file on this call", not unread, "expand_saved_queries", f"{q!r}: not read: {unread}",
+                      f"expanding {q!r} does not read {unread} although the result depends on them: a clause is taken from somewhere else than the saved query's page (a cache), so an edit or deletion "
+                      "of that page is not seen", file=FILE)
             ok = isinstance(v, str) and v in accept
             why = ""
             if isinstance(v, str) and not ok:
